@@ -76,7 +76,7 @@ def parse_out(out, space, solution):
         elif f[0] == "H":
             harness.append(line.strip())
         elif f[0] == "Z":
-            summary = {"states": int(f[1]), "transitions": int(f[2]), "depth": int(f[3]), "closed": bool(int(f[4])), "timed_out": bool(int(f[5]))}
+            summary = {"states": int(f[1]), "transitions": int(f[2]), "depth": int(f[3]), "closed": bool(int(f[4])), "timed_out": bool(int(f[5])), "depth_bound": int(f[6]) if len(f) > 6 else 1000}
     if harness:
         sys.stderr.write("E2 replay divergence (harness error, not a violation):\n" + "\n".join(harness[:5]) + "\n")
         raise SystemExit(2)
@@ -127,7 +127,8 @@ def eval_consistency(rep, res):
 def cover(rep, results, extra_rule=""):
     st = sum(r["summary"]["states"] for r in results)
     tr = sum(r["summary"]["transitions"] for r in results)
-    closed = all(r["summary"]["closed"] for r in results)
+    # a space is completely explored when it closed (fixpoint) or, for the depth-bounded sweeps, when every history up to the bound was run
+    closed = all(r["summary"]["closed"] or r["summary"]["depth"] >= r["summary"].get("depth_bound", 1000) for r in results)
     timed = any(r["summary"]["timed_out"] for r in results)
     samples = []
     for r in results[:3]:
